@@ -117,6 +117,7 @@ harness_op(int argc, char **argv)
         msize = parse_u64(argv[1]);
         medium = malloc(msize ? msize : 1);
         memset(medium, (int)strtoul(argv[2], NULL, 16), msize ? msize : 1);
+        memset(&store, 0xa5, sizeof store);     /* an object fresh from the stack or the heap: the initialiser must set every field it relies on */
         persistent_init(&store, parse_u64(argv[6]), med_read, med_write);
         snprintf(kindname, sizeof kindname, "%s", argv[4]);
         unsigned long init = parse_u64(argv[5]);
